@@ -132,11 +132,15 @@ Example C14_example_prime :
      = Some (call_tree (nm "f") two_args, [TK KNewline; TIdent (nm "x")], 8).
 Proof. vm_compute. repeat split; try reflexivity; try discriminate; auto. Qed.
 
-(* the [Newline, Comma] continuation is why prime_end excludes a newline that is followed by a comma *)
+(* the argument list continues behind line breaks, blank lines and comment-only lines when a comma follows
+   (before or after the comma): this is why prime_end looks at [first_sig] *)
 Example C14_example_prime_continuation :
-  observe (parse_expression gen_ptab 40 (prime_tokens (nm "f") (ACons (OInt 1) ANil) ++ [TK KNewline; TK KComma; TInt 2]))
-  = Some (EGet (ACall (ARead (nm "f")) [EInt 1; EInt 2]), [], 6).
-Proof. vm_compute. reflexivity. Qed.
+  observe (parse_expression gen_ptab 40
+     (prime_tokens (nm "f") (ACons (OInt 1) ANil) ++ [TK KNewline; TK KNewline; TComment; TK KNewline; TK KComma;
+                                                      TK KNewline; TK KNewline; TInt 2]))
+  = Some (EGet (ACall (ARead (nm "f")) [EInt 1; EInt 2]), [], 11)
+  /\ ~ prime_end gen_ptab false [TK KNewline; TK KNewline; TComment; TK KNewline; TK KComma; TInt 2].
+Proof. vm_compute. split; [reflexivity|]. intros (_ & _ & _ & H). apply H. reflexivity. Qed.
 
 Example C14_example_arrow :
   observe (parse_expression gen_ptab 40 (pp (v "a") ++ TK KArrow :: paren_tokens (nm "f") (ACons (v "b") ANil)))
